@@ -24,7 +24,8 @@ REGION_ALTS = {"body": [2, 3, "ov", "ov+2", 9], "mbb": [0, 1, "ov", 8], "vbb": [
 
 
 def bounds(tier):
-    return dict(enzymes="all distinct 5'-overhang single-cut geometries with an unambiguous 5-7 nt site (computed at run time)",
+    return dict(three_prime_cutters="BtsI, BsrDI, BseRI through signature-typed parts: k = 1..3, every rotation of every participant, every argument order",
+                enzymes="all distinct 5'-overhang single-cut geometries with an unambiguous 5-7 nt site (computed at run time)",
                 k=[1, 2, 3], schemes=[0, 1], annotations="every participant carrying features of every location flavour (exact, <a..>b, within, between, one-of, order, join across the origin, zero-length, remote reference) and qualifier shape: alone and x every rotation of one plasmid", spelling="each participant in lower case in turn, and all (bound 1)", junctions=["plain", "palindromic@0", "palindromic@last"],
                 region_alternatives=REGION_ALTS, deviation_bound=2,
                 pairs=("(region length, rotation of its plasmid), (permutation, rotation of one plasmid)" if tier == "quick"
@@ -40,7 +41,7 @@ def bounds(tier):
 def goals(tier):
     return ["every-enzyme:" + n for n, _ in gen.enzymes()] + ["k=3", "origin-in-site", "origin-in-filler", "origin-in-overhang", "origin-in-target",
             "origin-in-backbone", "non-identity-permutation", "palindromic-junction", "min-body", "empty-backbone",
-            "empty-placeholder", "content-exhaustive", "every-overhang-word", "lower-case-participant", "awkward-content", "large-plasmid", "long-chain", "annotated-participants", "ambiguity-codes-in-a-backbone"]
+            "empty-placeholder", "content-exhaustive", "every-overhang-word", "lower-case-participant", "awkward-content", "large-plasmid", "long-chain", "annotated-participants", "ambiguity-codes-in-a-backbone", "three-prime-overhang-enzyme"]
 
 
 def base_points(tier):
@@ -67,6 +68,8 @@ def units(tier):
         us.append(("menu", name))
     for name in ("BsaI", "BbsI", "BtgZI"):
         us.append(("large", name))
+    for name in ("BtsI", "BsrDI", "BseRI"):
+        us.append(("three-prime", name))
     # every overhang word of the 3- and 4-nt kit geometries in each junction role (k = 1); thorough: every pair
     for name in ("BsaI", "BbsI", "BsmBI", "BspQI"):
         g = gen.geometry_of(gen.enzyme(name))
@@ -133,7 +136,36 @@ def check(st, scn, expect=None):
     return True
 
 
+def unit_three_prime(st, name, tier):
+    """enzymes that leave 3' overhangs (usable through signature-typed parts only): chains of 1..3, every rotation of every
+    participant, every argument order"""
+    g = gen.geometry_of(gen.enzyme(name))
+    forbid = [g.site]
+    words = gen.overhang_words(g.ov, 4, 2)
+    for k in (1, 2, 3):
+        scn = dict(enz=name, k=k, ovs=words[: k + 1], three_prime=True, rot=[0] * (k + 1),
+                   bodies=[gen.word(i, 3 + 5 * i, 2 + i, forbid) for i in range(k)], mbbs=[gen.word(i + 1, 9 + 3 * i, 3 + i, forbid) for i in range(k)],
+                   fills=[[gen.word(0, 3 + i, g.off, forbid), gen.word(0, 17 + i, g.off, forbid)] for i in range(k)],
+                   vbb=gen.word(1, 61, 4, forbid), vph=gen.word(0, 47, 3, forbid), vfill=[gen.word(0, 29, g.off, forbid), gen.word(0, 41, g.off, forbid)])
+        vec, mods = asm.pieces_to_plasmids(scn)
+        if any(rm.count_sites(p, g) != 2 for p in [vec] + mods):
+            st.filtered += 1
+            continue
+        lens = [len(vec)] + [len(m) for m in mods]
+        todo = [scn] + [dict(scn, perm=list(p)) for p in list(itertools.permutations(range(k)))[1:]]
+        for which in range(k + 1):
+            todo += [dict(scn, rot=[r if j == which else 0 for j in range(k + 1)]) for r in range(1, lens[which])]
+        for s2 in todo:
+            check(st, s2)
+            st.scenario("product/three-prime", None)
+            st.nontrivial += 1
+            st.goal("three-prime-overhang-enzyme")
+    st.sample(dict(enz=name, k=1, three_prime=True))
+
+
 def run_unit(unit, st, tier):
+    if unit[0] == "three-prime":
+        return unit_three_prime(st, unit[1], tier)
     if unit[0] == "content":
         return unit_content(st, unit[1], tier)
     if unit[0] == "words":
